@@ -57,6 +57,7 @@ class Impl:
 class Prog:
     def __init__(self, adts, traits, impls, shape="?"):
         self.adts, self.traits, self.impls, self.shape = list(adts), list(traits), list(impls), shape
+        self.fixed_goals = None      # when set: the goals to pose for this program (shapes whose goals are part of the design)
         self.order = ([("adt", i) for i in range(len(self.adts))] + [("trait", i) for i in range(len(self.traits))]
                       + [("impl", i) for i in range(len(self.impls))])
 
@@ -80,6 +81,7 @@ class Prog:
                  [Trait(t.name, t.nextra, t.flags) for t in self.traits],
                  [Impl(i.nvars, i.head, list(i.wcs), i.positive) for i in self.impls], self.shape)
         p.order = list(self.order)
+        p.fixed_goals = self.fixed_goals
         return p
 
 
@@ -745,6 +747,132 @@ def shape_co_scc(rng):
     return Prog(adts, [Trait("C0", 0, ("coinductive",))], im, "co-scc")
 
 
+def _andor_prog(traits, clauses, facts, shape, nstructs=1):
+    """traits: [(name, coinductive)], clauses: [(head, [body names])] as blanket impls
+    `impl<T> head for T where T: b ..`, facts: [(trait, struct)] as `impl trait for struct`."""
+    adts = [Adt(n) for n in ("A", "B")[:nstructs]]
+    tr = [Trait(n, 0, ("coinductive",) if co else ()) for n, co in traits]
+    im = [Impl(1, (h, (var(0),)), [(b, (var(0),)) for b in body]) for h, body in clauses]
+    im += [Impl(0, (t, (adt(s),))) for t, s in facts]
+    pr = Prog(adts, tr, im, shape)
+    goals = [("atom", (n, (adt(a.name),))) for a in adts for n, _ in traits]
+    pr.fixed_goals = goals
+    return pr
+
+
+def shape_andor(rng):
+    """Propositional and-or programs: 4-8 parameterless traits, one or two unit structs, blanket
+    impls `impl<T> Pi for T where T: Pj, T: Pk ..` (1-3 clauses per trait, 0-3 body atoms) and
+    facts `impl Pi for A`; all-inductive / all-coinductive / coinductive on top of inductive
+    (no mixed cycles).  Dense cycles, siblings that read a cycle member after it was popped,
+    cycle heads whose provisional value changes between iterations.  Goals: every `A: Pi`
+    (ground, so the oracle is exact) plus a few conjunctions."""
+    mode = rng.choice(["ind", "ind", "co", "co", "co-on-ind"])
+    n = rng.randint(4, 8)
+    names = ["P%d" % i for i in range(n)]
+    if mode == "ind":
+        co = [False] * n
+    elif mode == "co":
+        co = [True] * n
+    else:
+        k = rng.randint(1, n - 1)
+        co = [i >= k for i in range(n)]
+    nstructs = rng.choice([1, 1, 2])
+    clauses, facts = [], []
+    template = rng.random() < 0.35
+    if template and n >= 5:
+        # the "sibling reads a popped cycle member" skeleton on five of the traits, the rest random
+        idx = list(range(n))
+        same = [i for i in idx if co[i] == co[-1]]
+        if len(same) >= 4:
+            h, g1, g2, r = rng.sample(same, 4)
+            others = [i for i in idx if i not in (h, g1, g2, r) and (co[-1] or not co[i])]
+            x = rng.choice(others) if others else None
+            if co[h]:
+                clauses.append((names[h], [names[g1], names[g2]] + ([names[x]] if x is not None else [])))
+            else:
+                clauses += [(names[h], [names[g1]]), (names[h], [names[g2]])] + ([(names[h], [names[x]])] if x is not None else [])
+            clauses += [(names[g1], [names[h]]), (names[g2], [names[g1]])]
+            if co[h]:
+                clauses += [(names[r], [names[h]]), (names[r], [names[g2]])]
+            else:
+                clauses.append((names[r], [names[h], names[g2]]))
+    have = {c[0] for c in clauses}
+    for i in range(n):
+        if names[i] in have and rng.random() < 0.6:
+            continue
+        allowed = [names[j] for j in range(n) if co[i] or not co[j]]
+        r = rng.random()
+        nclauses = 0 if r < 0.12 else rng.choice([1, 1, 2, 2, 3])
+        for _ in range(nclauses):
+            nb = rng.choice([0, 1, 1, 2, 2, 3])
+            if nb == 0:
+                if rng.random() < 0.6:
+                    facts.append((names[i], rng.choice(["A", "B"][:nstructs])))
+                else:
+                    clauses.append((names[i], []))
+            else:
+                clauses.append((names[i], [rng.choice(allowed) for _ in range(nb)]))
+    rng.shuffle(clauses)
+    pr = _andor_prog(list(zip(names, co)), clauses, facts, "andor-" + mode, nstructs)
+    gs = pr.fixed_goals
+    for _ in range(2):
+        a, b = rng.sample(gs, 2)
+        gs.append(("and", (a, b)))
+    if rng.random() < 0.5:
+        gs.append(("not", rng.choice(gs[:n])))
+    return pr
+
+
+def andor_demo_programs():
+    """the two witnesses of the `minimums.update_from` seed (provisional result read by a
+    sibling after the cycle member was popped)"""
+    co = _andor_prog([("R", False), ("Never", False), ("H", True), ("G1", True), ("G2", True)],
+                     [("H", ["G1", "G2", "Never"]), ("G1", ["H"]), ("G2", ["G1"]), ("R", ["H"]), ("R", ["G2"])], [], "corpus-andor-co")
+    ind = _andor_prog([("R", False), ("Base", False), ("H", False), ("G1", False), ("G2", False)],
+                      [("H", ["G1"]), ("H", ["G2"]), ("H", ["Base"]), ("G1", ["H"]), ("G2", ["G1"]), ("R", ["H", "G2"])],
+                      [("Base", "A")], "corpus-andor-ind")
+    return [co, ind]
+
+
+def _nest(name, k, base):
+    t = base
+    for _ in range(k):
+        t = ("adt", name, (t,))
+    return t
+
+
+def shape_size_boundary(rng, sizes=(4, 5, 6, 9, 10, 29, 30)):
+    """Ground goals whose types have exactly the given node counts, over impls whose
+    where-clauses repeat the (whole) header type: every type of the derivation has the size
+    of the goal's type, so the search is within a limit `max_size` iff that size <= max_size."""
+    v = rng.randrange(4)
+    adts = [Adt("X"), Adt("V", 1), Adt("Y")]
+    VT = adt("V", var(0))
+    if v == 0:
+        tr = [Trait("Foo"), Trait("Bar")]
+        im = [Impl(1, ("Foo", (VT,)), [("Bar", (VT,))]), Impl(1, ("Bar", (VT,)))]
+    elif v == 1:
+        tr = [Trait("Foo"), Trait("Bar"), Trait("Baz")]
+        im = [Impl(1, ("Foo", (VT,)), [("Bar", (VT,)), ("Baz", (VT,))]), Impl(1, ("Bar", (VT,)), [("Baz", (VT,))]), Impl(1, ("Baz", (VT,)))]
+    elif v == 2:
+        # true for X-based towers, false for Y-based ones
+        tr = [Trait("Foo"), Trait("Bar")]
+        im = [Impl(1, ("Foo", (VT,)), [("Bar", (VT,))]), Impl(1, ("Bar", (VT,)), [("Bar", (var(0),))]), Impl(0, ("Bar", (adt("X"),)))]
+    else:
+        tr = [Trait("Foo", 0, ("coinductive",)), Trait("Bar")]
+        im = [Impl(1, ("Foo", (VT,)), [("Foo", (VT,)), ("Bar", (VT,))]), Impl(1, ("Bar", (VT,)))]
+    pr = Prog(adts, tr, im, "size-boundary")
+    goals = []
+    for s in sizes:
+        for base in (("X", "Y") if v == 2 else ("X",)):
+            if v == 2 and s > 12:
+                continue          # variant 2 walks the whole tower: keep it within overflow depth
+            goals.append(("atom", ("Foo", (_nest("V", s - 1, adt(base)),))))
+    pr.fixed_goals = goals
+    return pr
+
+
 def _rand_ty(rng, adts, nvars, depth):
     choices = []
     if nvars:
@@ -1035,6 +1163,9 @@ def corpus():
              [Impl(0, ("C0", (S(0),)), [("C0", (S(1),))]), Impl(0, ("C0", (S(1),)), [("C0", (S(3),)), ("C0", (S(2),))]),
               Impl(0, ("C0", (S(2),)), [("C0", (S(1),)), ("C0", (S(3),))]), Impl(0, ("C0", (S(3),)), [("C0", (S(2),))])], "corpus-F7q")
     out.append((p, [("atom", ("C0", (S(0),))), ("atom", ("C0", (S(1),)))]))
+    # provisional result read by a sibling (recursive solver, minimums.update_from seed)
+    for q in andor_demo_programs():
+        out.append((q, list(q.fixed_goals)))
     return out
 
 
